@@ -41,7 +41,7 @@ func init() {
 				return 150_000
 			}, Run: c15Gradient,
 				Min: map[string]int64{"gradients": 20000, "probes": 1000000, "exact_integer_offsets": 2000, "exact_odd_integer_reflect": 100, "exact_stop_offsets": 1000, "negative_offsets": 50000, "offsets_above_1": 50000, "offsets_inside_0_1": 200000,
-					"spread_none": 10000, "spread_pad": 10000, "spread_reflect": 10000, "spread_repeat": 10000, "radial": 100000, "linear": 100000, "transparent_outside": 1000, "dyadic_gradients": 5000, "far_offset_gradients": 3000}},
+					"spread_none": 10000, "spread_pad": 10000, "spread_reflect": 10000, "spread_repeat": 10000, "radial": 100000, "linear": 100000, "transparent_outside": 1000, "dyadic_gradients": 5000, "far_offset_gradients": 3000, "gradients_after_another_gradient": 20000}},
 			{Name: "pixels", N: func(t string) uint64 {
 				if t == "thorough" {
 					return 1_000_000
@@ -226,11 +226,9 @@ func (q *c15Grad) judge(c *run.Ctx, x, y int, got color.RGBA64, slack float64, w
 	return true
 }
 
-func c15Gradient(c *run.Ctx, idx uint64) {
-	r := c.Rng(idx)
-	q := c15Gen(r, false)
+// c15Probes chooses the pixels at which a gradient is probed.
+func c15Probes(q *c15Grad, r *run.Rng) []image.Point {
 	w, h := q.rect.Dx(), q.rect.Dy()
-	// probe list
 	pts := []image.Point{{0, 0}, {w - 1, 0}, {0, h - 1}, {w - 1, h - 1}, {w / 2, h / 2}, {-1, -1}, {w, h}, {-7, h + 5}}
 	if q.dyadic {
 		// pixels whose offset is exactly an integer or a stop offset
@@ -267,19 +265,75 @@ func c15Gradient(c *run.Ctx, idx uint64) {
 		}
 		pts = append(pts, p)
 	}
-	rz := &rec.Raster{Probes: pts}
+	return pts
+}
+
+// c15Like generates another gradient for the same viewBox and rectangle.
+func c15Like(r *run.Rng, base *c15Grad) *c15Grad {
+	for {
+		q := c15Gen(r, false)
+		if q.dyadic != base.dyadic {
+			continue
+		}
+		if q.dyadic {
+			q.vb, q.rect = base.vb, base.rect
+			return q
+		}
+		// the matrix was generated for q's own viewBox: move it to base's by
+		// composing with the affine map base.vb -> q.vb
+		ax := (float64(q.vb.MaxX) - float64(q.vb.MinX)) / (float64(base.vb.MaxX) - float64(base.vb.MinX))
+		ay := (float64(q.vb.MaxY) - float64(q.vb.MinY)) / (float64(base.vb.MaxY) - float64(base.vb.MinY))
+		bx := float64(q.vb.MinX) - ax*float64(base.vb.MinX)
+		by := float64(q.vb.MinY) - ay*float64(base.vb.MinY)
+		m := q.m
+		for row := 0; row < 6; row += 3 {
+			q.m[row+2] = float32(float64(m[row])*bx + float64(m[row+1])*by + float64(m[row+2]))
+			q.m[row], q.m[row+1] = float32(float64(m[row])*ax), float32(float64(m[row+1])*ay)
+		}
+		q.vb, q.rect = base.vb, base.rect
+		return q
+	}
+}
+
+func c15Gradient(c *run.Ctx, idx uint64) {
+	r := c.Rng(idx)
+	q := c15Gen(r, false)
+	rz := &rec.Raster{}
 	var z render.Renderer
 	z.SetRasterizer(rz, q.rect)
 	z.Reset(q.vb, ivg.DefaultPalette)
+	// One Renderer paints a sequence of gradients (1..3): the paint object is
+	// reused, so anything it remembers from the previous gradient (ranges,
+	// caches) must not leak into the next one.
+	n := r.Pick(1, 1, 2, 2, 3)
+	for k := 0; k < n; k++ {
+		g := q
+		if k > 0 {
+			g = c15Like(r, q)
+			c.Count("gradients_after_another_gradient", 1)
+		}
+		if !c15DrawAndJudge(c, &z, rz, g, r) {
+			return
+		}
+	}
+}
+
+// c15DrawAndJudge sets gradient q up on the Renderer, fills a path with it
+// and judges the probes of the paint handed to Draw.
+func c15DrawAndJudge(c *run.Ctx, zp *render.Renderer, rz *rec.Raster, q *c15Grad, r *run.Rng) bool {
+	w, h := q.rect.Dx(), q.rect.Dy()
+	pts := c15Probes(q, r)
+	rz.ResetLog()
+	rz.Probes = pts
 	ok := c.Guard("gradient", func() interface{} { return q.desc() }, func() {
-		q.setup(&z, r)
-		z.StartPath(0, q.vb.MinX, q.vb.MinY)
-		z.AbsLineTo(q.vb.MaxX, q.vb.MinY)
-		z.AbsLineTo(q.vb.MaxX, q.vb.MaxY)
-		z.ClosePathEndPath()
+		q.setup(zp, r)
+		zp.StartPath(0, q.vb.MinX, q.vb.MinY)
+		zp.AbsLineTo(q.vb.MaxX, q.vb.MinY)
+		zp.AbsLineTo(q.vb.MaxX, q.vb.MaxY)
+		zp.ClosePathEndPath()
 	})
 	if !ok {
-		return
+		return false
 	}
 	c.Count("gradients", 1)
 	if q.dyadic {
@@ -297,7 +351,7 @@ func c15Gradient(c *run.Ctx, idx uint64) {
 				d := q.desc()
 				d["draw"] = rz.Calls[i].String()
 				c.Violate("draw-alignment", d)
-				return
+				return false
 			}
 		}
 	}
@@ -305,7 +359,7 @@ func c15Gradient(c *run.Ctx, idx uint64) {
 		d := q.desc()
 		d["raster_calls"] = rec.RStrings(clipR(rz.Calls, 8))
 		c.Violate("gradient-not-drawn", d)
-		return
+		return false
 	}
 	if c.WantSample() {
 		c.Sample(q.desc())
@@ -349,9 +403,10 @@ func c15Gradient(c *run.Ctx, idx uint64) {
 			c.Count("transparent_outside", 1)
 		}
 		if !q.judge(c, p.X, p.Y, paint.Probes[i], 2, "paint") {
-			return
+			return false
 		}
 	}
+	return true
 }
 
 func c15Pixels(c *run.Ctx, idx uint64) {
